@@ -366,8 +366,13 @@ func ckksEvalOnce(c *eng.Ctx, rnd *eng.Rand, x *ckksCtx, job ckksJob, need int) 
 			var re, im float64
 			if mask[k] {
 				re = pickCoeffF(rnd)
-				if job.Complex && rnd.Bool() {
-					im = pickCoeffF(rnd)
+				if job.Complex {
+					switch rnd.N(4) {
+					case 0, 1:
+						im = pickCoeffF(rnd)
+					case 2: // purely imaginary coefficient: zero real part, non-zero imaginary part
+						re, im = 0, pickCoeffF(rnd)
+					}
 				}
 			}
 			cplx[i][k] = complex(re, im)
